@@ -493,6 +493,25 @@ func parseOps(b []byte, start, nout int, l *layout) error {
 	return r.err
 }
 
+// records counts the records of a description tree, depth its height.
+func (a *argDesc) records() int {
+	n := 1
+	for _, m := range a.members {
+		n += m.records()
+	}
+	return n
+}
+
+func (a *argDesc) depth() int {
+	d := 0
+	for _, m := range a.members {
+		if m.depth() > d {
+			d = m.depth()
+		}
+	}
+	return d + 1
+}
+
 func (a *argDesc) bitsSum() int {
 	s := 0
 	for _, m := range a.members {
